@@ -226,6 +226,24 @@ def cases_c11(types, rng, tier):
                     continue
                 c.add(t["tid"], f"iter {D} {src} idx {BIG} 3 0 {m['count'] + 5}", iter_expect(s, D, p, "idx", BIG),
                       f"iteration rooted at {p} ({rep}) with D={D} in {t['label']}", "root:" + rep)
+        # `root()` on an iterator that was already used, or already rooted elsewhere: iteration rooted at a node is the
+        # leaves at or below it, whatever the iterator did before
+        roots = [p for p in nodes if len(p) <= D]
+        for _ in range(12 if tier == "quick" else 60):
+            if not roots:
+                break
+            p = rng.choice(roots)
+            pre = rng.choice([1, 2, 3, m["count"] // 2 + 1, m["count"], m["count"] + 2])
+            earlier = [rng.choice(roots) for _ in range(rng.choice([0, 0, 1, 2]))]
+            specs = [T.render(s, q, rng.choice(["indices", "names"])) for q in earlier + [p]]
+            hist = f"H{pre};" + ";".join(specs)
+            exact = 1 if (p == () and m["depth"] <= D and rng.random() < 0.5) else 0
+            exp = iter_expect(s, D, p, "idx", BIG)
+            if exact:
+                exp = None     # the exact-size trace is compared with the model only; it must not panic (Cases.oracle)
+            c.add(t["tid"], f"iter {D} {hist} idx {BIG} 3 {exact} {m['count'] + 5}", exp,
+                  f"{pre} x next(), then root() at {earlier + [p]} in turn (D={D}) in {t['label']}: must be the iteration rooted at {p}",
+                  "root:reroot")
         if m["bits"] <= 63 and m["depth"] <= 8:
             c.add(t["tid"], f"iter {D} - packed 0 3 0 {m['count'] + 5}", iter_expect(s, D, (), "packed", 0),
                   f"nodes::<Packed, {D}>() of {t['label']} (max_bits {m['bits']})", "target:packed")
